@@ -53,6 +53,10 @@ def build(e, env, lit):
         for _ in range(e[2]):
             acc = ops[e[1]](acc, term)
         return acc
+    if e[0] == "pre":
+        # c1 = …; c2 = …; c3 = … (all comparisons first, as a program that names its conditions does), then the selection
+        c1, c2, c3 = build(e[1], env, lit), build(e[2], env, lit), build(e[3], env, lit)
+        return c1.if_else(build(e[4], env, lit), c2.if_else(build(e[5], env, lit), c3.if_else(build(e[6], env, lit), build(e[4], env, lit))))
     if e[0] == "aug":
         seed = build(e[2], env, lit)
         acc = seed
@@ -79,6 +83,8 @@ def exact(e, vals):
         for _ in range(e[2]):
             acc = ops[e[1]](acc, term)
         return acc
+    if e[0] == "pre":
+        return exact(e[4], vals) if exact(e[1], vals) else (exact(e[5], vals) if exact(e[2], vals) else (exact(e[6], vals) if exact(e[3], vals) else exact(e[4], vals)))
     if e[0] == "aug":
         return ops[e[1]](exact(e[2], vals), exact(e[3], vals)) - exact(e[2], vals)
     return exact(e[2], vals) if exact(e[1], vals) else exact(e[3], vals)
@@ -95,6 +101,8 @@ def show(e):
         return f"(-{show(e[1])})"
     if e[0] == "chain":
         return f"(acc = {show(e[3])}; {e[2]} times: acc = acc {e[1]} {show(e[4])})"
+    if e[0] == "pre":
+        return f"(c1 = {show(e[1])}; c2 = {show(e[2])}; c3 = {show(e[3])}; c1.if_else({show(e[4])}, c2.if_else({show(e[5])}, c3.if_else({show(e[6])}, {show(e[4])}))))"
     if e[0] == "aug":
         return f"(seed := {show(e[2])}; acc = seed; acc {e[1]}= {show(e[3])}; acc - seed)"
     return f"{show(e[1])}.if_else({show(e[2])}, {show(e[3])})"
@@ -176,6 +184,12 @@ def run(res, tier):
         if i % 60 == 11:
             # a long reduction: the value is a chain of several hundred / thousand operations
             e = ("chain", rng.choice(["+", "-", "+"]), rng.choice([600, 1100, 2500]), ("var", names[0]), gen_expr(rng, 1, names))
+        if i % 9 == 4:
+            # conditions computed first and consumed afterwards: several comparisons of the same two values (same operand
+            # classes, different answers) are alive at the same time
+            x, y = ("var", names[0]), ("var", names[-1]) if rng.random() < 0.6 else gen_expr(rng, 1, names)
+            o1, o2, o3 = rng.sample(["<", ">", "==", "!=", "<=", ">="], 3)
+            e = ("pre", ("bin", o1, x, y), ("bin", o2, x, y), ("bin", o3, y, x), ("lit", 1), ("lit", 2), gen_expr(rng, 1, names))
         if i % 7 == 3:
             # a value compared with / combined with *itself* (the same Python object on both sides, as on the diagonal of an
             # all-pairs loop), at the root or under an if_else
